@@ -6,6 +6,7 @@ use serde::{de::DeserializeOwned, Serialize};
 use std::collections::BTreeSet;
 use std::sync::Arc;
 
+pub mod diff;
 pub mod seq_inv;
 
 #[derive(Clone)]
@@ -66,5 +67,6 @@ pub struct Property {
 pub fn all() -> Vec<Property> {
   let mut v = Vec::new();
   v.extend(seq_inv::properties());
+  v.extend(diff::properties());
   v
 }
